@@ -19,7 +19,8 @@
    NaN: the encoder replaces every NaN by the canonical quiet NaN
    (7fc00000 / 7ff8000000000000); all other floats are carried bit-exactly
    ([C09_float_exact]). *)
-From Verif Require Import Base.Prelude Base.CborSpec Proofs.CborSpecP Enc.CborEnc Proofs.CborEncP.
+From Verif Require Import Base.
+From Verif Require Base.GoSem Proofs.SrcCborP.Prelude Base.CborSpec Proofs.CborSpecP Enc.CborEnc Proofs.CborEncP.
 Open Scope N_scope.
 
 (* ---- the reference parser is sound and complete for the specification ---- *)
@@ -153,6 +154,16 @@ Example C09_ex_bytes :
   parse_cbor (enc_event ex_time ex_dur ex_fields) = Some (IMapI (spec_fields ex_time ex_dur ex_fields)).
 Proof. split; vm_compute; reflexivity. Qed.
 
+(* ---- about the SOURCE: Gen/CborSrc.v is the translation (harness/cmd/srcgen, regenerated on every run) of the
+   function bodies of /repo/internal/cbor's encoder.  The head encoder appendCborTypePrefix (width switch and the
+   big-endian byte loop), text/byte strings, keys, the object splice, booleans, signed and unsigned integers with
+   their slice forms, the tagged byte strings and the embedded JSON/CBOR wrappers return exactly what the model
+   computes, for every argument (slices shorter than 2^62 elements, integers in their int64 range). The float
+   encoders, the other integer widths (which only forward to these) and time/duration are translated but their
+   equality with the model is not proved; they stay tied by the byte-exact correspondence run. ---- *)
+Theorem C09_source_refines_model : Proofs.SrcCborP.cbor_source_refinement.
+Proof. exact Proofs.SrcCborP.cbor_source_refines_model. Qed.
+
 Print Assumptions C09_parser_sound.
 Print Assumptions C09_parser_complete.
 Print Assumptions C09_decoding_unique.
@@ -168,3 +179,4 @@ Print Assumptions C09_wellformed.
 Print Assumptions C09_values.
 Print Assumptions C09_context_splice.
 Print Assumptions C09_stream.
+Print Assumptions C09_source_refines_model.
